@@ -62,8 +62,41 @@ def Val.isTrue (v : Val) : Bool := v == .bool true
 
 /-! ## numbers: Python's int/float tower for `+ - * / < >` -/
 
+/-- the double nearest to the natural number `n` (ties to even), as CPython's `float(int)` computes it: below 2^64 the library
+conversion is one correctly rounded step; above, the bits dropped to reach 64 are kept as a sticky low bit so that the single
+rounding 64 → 53 bits sees them -/
+def natToFloatRN (n : Nat) : Float :=
+  if n < 2 ^ 64 then Float.ofNat n
+  else
+    let s := n.log2 - 63
+    let m := n >>> s
+    let m := if m <<< s = n then m else m ||| 1
+    (Float.ofNat m).scaleB s
+
+def intToFloatRN (i : Int) : Float :=
+  match i with
+  | .ofNat n => natToFloatRN n
+  | .negSucc n => -(natToFloatRN (n + 1))
+
+/-- the double nearest to `a / b` for naturals `a`, `b > 0` (CPython's `long_true_divide`: one rounding of the exact quotient):
+a quotient of 55..56 bits with the remainder as sticky bit, rounded once, scaled by a power of two -/
+def natTrueDiv (a b : Nat) : Float :=
+  if a = 0 then 0.0
+  else
+    let d : Int := (a.log2 : Int) - (b.log2 : Int)
+    let s : Int := 55 - d
+    let num := if s ≥ 0 then a <<< s.toNat else a
+    let den := if s ≥ 0 then b else b <<< (-s).toNat
+    let q := num / den
+    let q' := 2 * q + (if num % den = 0 then 0 else 1)
+    (Float.ofNat q').scaleB (-(s + 1))
+
+def intTrueDiv (a b : Int) : Float :=
+  let f := natTrueDiv a.natAbs b.natAbs
+  if (a < 0) != (b < 0) then -f else f
+
 def Val.toFloat? : Val → Option Float
-  | .int i => some (Float.ofInt i)
+  | .int i => some (intToFloatRN i)
   | .float b => some (Float.ofBits b)
   | .bool b => some (if b then 1.0 else 0.0)
   | _ => Option.none
@@ -91,6 +124,9 @@ def Val.mul (a b : Val) : Except String Val := Val.arith (· * ·) (· * ·) a b
 
 /-- Python `/` (true division): always a float; ZeroDivisionError on a zero divisor -/
 def Val.div (a b : Val) : Except String Val :=
+  match a.toInt?, b.toInt? with
+  | some x, some y => if y = 0 then .error "ZeroDivisionError" else .ok (.flt (intTrueDiv x y))
+  | _, _ =>
   match a.toFloat?, b.toFloat? with
   | some x, some y => if y == 0.0 then .error "ZeroDivisionError" else .ok (.flt (x / y))
   | _, _ => .error "TypeError"
